@@ -3,6 +3,7 @@
 import PdfVerif.Spec.Labels
 import PdfVerif.Spec.Outline
 import PdfVerif.Spec.NameTree
+import PdfVerif.Model.OutlineGraph
 
 open PdfVerif
 
@@ -94,6 +95,7 @@ def showText (t : Labels.Text) : String :=
 def showErr : Labels.Err → String
   | .assertion => "E:AssertionError"
   | .index => "E:IndexError"
+  | .syntax => "E:PDFSyntaxError"
   | .fuel => "E:fuel"
 
 /-- Items up to and including the first error (the generator dies there). -/
@@ -141,6 +143,21 @@ partial def oforest : SExp → Option (List Spec.Outline.OTree)
   | .list (.atom "F" :: ts) => ts.mapM otree
   | _ => none
 end
+
+/-- `(id title dest a se first last next)` -/
+def gnode : SExp → Option (Nat × OutlineGraph.GNode)
+  | .list [.atom id, t, d, a, se, first, last, next] => do
+    let id ← id.toNat?
+    let i ← info t d a se
+    let f ← optNat first
+    let l ← match last with | .atom "+" => some true | .atom "-" => some false | _ => none
+    let n ← optNat next
+    pure (id, { info := i, first := f, hasLast := l, next := n })
+  | _ => none
+
+def gstore : SExp → Option OutlineGraph.Store
+  | .list (.atom "G" :: ns) => ns.mapM gnode
+  | _ => none
 
 def showOptNat : Option Nat → String
   | some n => toString n
@@ -244,6 +261,16 @@ def handle (line : String) : String :=
       | some t => "|".intercalate (showLabels (Labels.labels t n))
       | none => "bad-op"
     | _, _ => "bad-op"
+  | "labels.strict" :: n :: rest =>
+    match n.toNat?, parseAll rest with
+    | some n, some [t] =>
+      match numTree t with
+      | some t =>
+        match Labels.labelsStrict t n with
+        | .ok ls => "|".intercalate (showLabels ls)
+        | .error e => showErr e
+      | none => "bad-op"
+    | _, _ => "bad-op"
   | "spec.labels" :: n :: rest =>
     match n.toNat?, parseAll rest with
     | some n, some [t] =>
@@ -261,6 +288,16 @@ def handle (line : String) : String :=
       | some e => showItems (Outline.getOutlines e)
       | none => "bad-op"
     | _ => "bad-op"
+  | "outline.graph" :: root :: rest =>
+    match root.toNat?, parseAll rest with
+    | some r, some [g] =>
+      match gstore g with
+      | some g =>
+        match OutlineGraph.getOutlinesG g r with
+        | some l => showItems l
+        | none => "E:fuel"
+      | none => "bad-op"
+    | _, _ => "bad-op"
   | "outline.enc" :: rest =>
     match parseAll rest with
     | some [f] =>
